@@ -264,6 +264,11 @@ func (w *World) Close() {
 				walk(p.GetPartitionQueues())
 			}
 			w.CC.Stop()
+			// the partitions are cleaned up in the background (applications and nodes removed, user and group usage given
+			// back): the next world resets the process wide user manager, wait until that is over
+			for i := 0; i < 2000 && len(w.CC.GetPartitionMapClone()) > 0; i++ {
+				time.Sleep(time.Millisecond)
+			}
 		}()
 	}
 	plugins.UnregisterSchedulerPlugins()
